@@ -107,12 +107,18 @@ Example lookup_example :
   lookupTable Qops true [-1; -1; 3#10; 2#10; 1#10] [-1; -1; 1#2; 1#2; 1#2] = (1%nat, ([3#10; 3#10; 3#10; 2#10; 1#10], [1#2; 1#2; 1#2; 1#2; 1#2])) /\
   lookupTable Qops true [-1; -1; -1] [-1; -1; -1] = (2%nat, ([0; 0; 0], [0; 0; 0])) /\
   lookupTable Qops false [-1; -1; -1] [-1; -1; -1] = (0%nat, ([-1; -1; -1], [-1; -1; -1])) /\
-  lookupTable Qops true [3#10; 2#10] [1#2; 1#2] = (0%nat, ([2#10; 2#10], [1#2; 1#2])).
+  lookupTable Qops true [3#10; 2#10] [1#2; 1#2] = (0%nat, ([2#10; 2#10], [1#2; 1#2])) /\
+  (* missing results behind the first stable class are filled from below; on the pinned tree they stay *)
+  lookupTable Qops true [-1; 3#10; -1; -1; 1#10] [-1; 1#2; -1; -1; 1#3] = (0%nat, ([3#10; 3#10; 3#10; 3#10; 1#10], [1#2; 1#2; 1#2; 1#2; 1#3])) /\
+  lookupTable Qops false [-1; 3#10; -1; -1; 1#10] [-1; 1#2; -1; -1; 1#3] = (0%nat, ([3#10; 3#10; -1; -1; 1#10], [1#2; 1#2; -1; -1; 1#3])) /\
+  lookupTable Qops true [3#10; -1; 1#10] [1#2; -1; 1#3] = (0%nat, ([3#10; 3#10; 1#10], [1#2; 1#2; 1#3])) /\
+  extendTable Qops true [3#10; 2#10] [1#2; 1#2] [-1; -1] [-1; -1] = ([3#10; 2#10; 2#10; 2#10], [1#2; 1#2; 1#2; 1#2]) /\
+  extendTable Qops false [3#10; 2#10] [1#2; 1#2] [-1; -1] [-1; -1] = ([3#10; 2#10; -1; -1], [1#2; 1#2; -1; -1]).
 Proof. repeat split; vm_compute; reflexivity. Qed.
 
-(* growth with equal molar volumes, constant effective diffusion distance 1: a sentinel entry in the middle, a zeroed
-   entry and a regular one.  Repaired: masked classes have growth 0.  (On the pinned tree the first two divide by 0,
-   which exact rationals totalise to 0 - the reason the correspondence compares the DENOMINATORS.) *)
+(* growth with equal molar volumes, constant effective diffusion distance 1: a sentinel entry (only possible on the pinned
+   tree), a zeroed entry and a regular one: the first two have a zero supersaturation denominator; repaired: masked,
+   growth 0 (exact rationals totalise x/0 to 0, so the denominators are shown as well) *)
 Example growth_example :
   growthBinary Qops (fun _ => 1) true 0 (1#50) 1 1 (1#100) [1; 1; 1] [1; 2; 4] [-1; 0; 1#100] [-1; 0; 1#4] = [0; 0; 1#96] /\
   map (fun '(a, b) => fst (growthDenoms Qops (fun _ => 1) false (1#50) 1 (1#100) 1 a b)) [(-1, -1); (0, 0); (1#100, 1#4)] = [0; 0; 6#25] /\
